@@ -165,6 +165,14 @@ class Unit:
                 notes = Notes()
                 txt = apply_rules(sp.text, ['R8', 'R8b'], notes)
                 txt = self._apply_substs(txt, s, notes)
+                # R8c: a derived Clone (no Verus spec when fields are not Copy) becomes an impl with the ASSUMED
+                # contract `clone() == *self`
+                dm = re.search(r'#\[derive\(([^)]*)\)\]', txt)
+                if dm and 'Clone' in [d.strip() for d in dm.group(1).split(',')] and 'Copy' not in dm.group(1) and 'noclone' not in s.args:
+                    kept = [d.strip() for d in dm.group(1).split(',') if d.strip() and d.strip() != 'Clone']
+                    txt = txt[:dm.start()] + (('#[derive(%s)]' % ', '.join(kept)) if kept else '') + txt[dm.end():]
+                    txt += ('\nimpl Clone for %s {\n    #[verifier::external_body]\n    fn clone(&self) -> (r: Self) ensures r == *self { unimplemented!() }\n}' % s.args[1])
+                    notes.add('R8', 'derived Clone replaced by an impl with the assumed contract clone() == *self')
                 self.items.append(Item(s.args[1], 'type', txt, origin=sp.describe(), notes=notes))
             elif k == 'fn':
                 self.items.append(self._build_fn(s, False))
@@ -483,6 +491,39 @@ def weave(txt, s, notes, canary=False):
                 if inpos is None:
                     raise ExtractError('@loop %d: cannot name iterator in %s' % (k, s.args[1]))
                 inserts.append((inpos, largs[1] + ': '))
+        elif name == 'before_stmt':
+            anc = _anchor(arg)
+            pos = -1
+            start = body_open
+            for _ in range(nth):
+                pos = txt.find(anc, start)
+                if pos < 0:
+                    break
+                start = pos + 1
+            if pos < 0:
+                notes.add('LOST-ANCHOR', '@before_stmt `%s`' % anc)
+                continue
+            depth = 0
+            j = pos - 1
+            while j > body_open:
+                c = mask[j]
+                if c in ')]}':
+                    depth += 1
+                elif c in '([{':
+                    if depth == 0:
+                        if c == '{':
+                            break
+                        # inside parentheses of an enclosing expression: keep walking out
+                        j -= 1
+                        continue
+                    depth -= 1
+                elif c == ';' and depth == 0:
+                    break
+                if c == '}' and depth == 1:
+                    # a closed block right before: statement boundary only if it is a block statement
+                    pass
+                j -= 1
+            inserts.append((j + 1, '\n' + body + '\n'))
         elif name in ('before', 'after'):
             anc = _anchor(arg)
             pos = -1
